@@ -127,5 +127,24 @@ func setScripts() [][][]string {
 		{{"sadd", "k1", "x", "x", "y"}, {"scard", "k1"}, {"sadd", "k1", "y", "z", "z"}, {"sadd", "k2", "n", "n"}},
 		// regression of SINTERCARD LIMIT over a single key (given once or twice): the limit caps the answer
 		{{"sadd", "k1", "a", "b", "c", "b"}, {"sintercard", "k1", "LIMIT", "2"}, {"sintercard", "k1", "k1", "limit", "1"}, {"sintercard", "k1", "limit", "5"}, {"sintercard", "k1", "limit", "0"}},
+		// regression of SUNION / SUNIONSTORE (appended last so that the ids of the earlier scripts do not move): the
+		// union is a new set — the operands keep their members (was: one operand received the others' members), the
+		// destination shares nothing with a source (later writes to either side do not show in the other), an absent
+		// key is the empty set (was: "not a set"), a value of another type is an error that changes nothing
+		{{"sadd", "k1", "a", "b", "c"}, {"sadd", "k2", "b", "c", "d"}, {"sadd", "k5", "e"}, {"sunion", "k1", "k2"}, {"smembers", "k1"}, {"smembers", "k2"},
+			{"sunion", "k1", "k2", "k5"}, {"sunion", "k5", "k2", "k1", "k2"}, {"smembers", "k5"}, {"sunionstore", "k3", "k1", "k2"}, {"smembers", "k1"},
+			{"sadd", "k1", "x", "x", "y"}, {"smembers", "k3"}, {"srem", "k3", "a"}, {"spop", "k3", "10"}, {"smembers", "k1"}, {"sunionstore", "k3", "k1"},
+			{"sadd", "k3", "z"}, {"smembers", "k1"}, {"smove", "k1", "k3", "a"}, {"sunionstore", "k1", "k1", "k2"}, {"smembers", "k2"},
+			{"sunion", "k1", "missing"}, {"sunion", "missing", "k1"}, {"sunion", "missing", "gone"}, {"sunionstore", "k6", "missing", "k2", "gone"}, {"smembers", "k6"},
+			{"sunionstore", "k6", "missing"}, {"smembers", "k6"}, {"type", "k6"}, {"set", "k4", "str"}, {"sunion", "k1", "k4", "missing"}, {"sunion", "missing", "k4", "k1"},
+			{"sunionstore", "k6", "k2", "k4"}, {"smembers", "k6"}, {"sunionstore", "k4", "k1", "k2"}, {"type", "k4"}},
+		// regression of SINTERSTORE: a lone operand is copied (was: the destination held the operand's own set), an
+		// absent operand empties the destination (was: the old destination stayed), a value of another type is an
+		// error whichever operand is absent
+		{{"sadd", "k1", "a", "b", "c"}, {"sinterstore", "k3", "k1"}, {"sadd", "k1", "x", "x", "y"}, {"smembers", "k3"}, {"srem", "k3", "a"}, {"smembers", "k1"},
+			{"sinterstore", "k1", "k1"}, {"sinterstore", "k1", "k1", "k1"}, {"sadd", "k3", "q"}, {"sinterstore", "k3", "k1", "k2"}, {"smembers", "k3"}, {"type", "k3"},
+			{"sadd", "k3", "q"}, {"sinterstore", "k3", "k2", "k1"}, {"scard", "k3"}, {"sadd", "k2", "a", "x"}, {"sinterstore", "k3", "k1", "k2"}, {"smembers", "k3"},
+			{"set", "k4", "str"}, {"sinterstore", "k3", "missing", "k4", "k1"}, {"sinterstore", "k3", "k4", "missing"}, {"sinterstore", "k3", "k1", "missing", "k4"}, {"smembers", "k3"},
+			{"sinterstore", "k4", "k1", "missing"}, {"type", "k4"}, {"sinterstore", "k3", "k1", "k2", "k1", "missing"}, {"scard", "k3"}},
 	}
 }
